@@ -188,22 +188,37 @@ impl<'tcx> Cx<'tcx> {
                 pty = pty.projection_ty(tcx, elem);
             }
             out2.push(']');
-            // enum ADT of every downcast, in order
+            // enum ADT of every downcast and owner ADT of every field projection, in order
             let mut enums: Vec<String> = Vec::new();
+            let mut owners: Vec<String> = Vec::new();
             let mut pty2 = mir::PlaceTy::from_ty(body.local_decls[p.local].ty);
             for elem in p.projection.iter() {
-                if let PlaceElem::Downcast(..) = elem {
-                    if let ty::Adt(adt, _) = pty2.ty.kind() {
-                        enums.push(self.path(adt.did()));
-                    } else {
-                        enums.push(self.ty(pty2.ty));
+                match elem {
+                    PlaceElem::Downcast(..) => {
+                        if let ty::Adt(adt, _) = pty2.ty.kind() {
+                            enums.push(self.path(adt.did()));
+                        } else {
+                            enums.push(self.ty(pty2.ty));
+                        }
                     }
+                    PlaceElem::Field(..) => {
+                        if let ty::Adt(adt, _) = pty2.ty.kind() {
+                            owners.push(self.path(adt.did()));
+                        } else {
+                            owners.push(String::new());
+                        }
+                    }
+                    _ => {}
                 }
                 pty2 = pty2.projection_ty(tcx, elem);
             }
             if !enums.is_empty() {
                 o.key("e");
                 jarr(o.out, enums.iter(), |out, e| jstr(out, e));
+            }
+            if owners.iter().any(|s| !s.is_empty()) {
+                o.key("fo");
+                jarr(o.out, owners.iter(), |out, e| jstr(out, e));
             }
         }
         o.end();
